@@ -2,6 +2,7 @@ import PoaVerif.Lemmas.EndBlock
 import PoaVerif.Facts
 import PoaVerif.Lemmas.Corollaries
 import PoaVerif.Lemmas.Quiet
+import PoaVerif.Lemmas.Quiet2.Effect
 /-
   C18 — queries report exactly the committed PoA state.
 -/
@@ -92,5 +93,24 @@ theorem c18_history_partial (g : Genesis) (hw : g.wf = true) (bs : List Block) (
   rcases List.mem_cons.mp hst with e | e
   · rw [e]; exact G_views _ _ hg
   · exact G_views _ _ (h5 st e).2
+
+/-- **C18, along whole histories with removals**: from every well-formed genesis, after InitChain and after every block
+    of a quiet history in the wider sense (`QuietHistory2`): every validator record is either live — the power query
+    answers `tokens / 10^6`, exactly CometBFT's power for its key — or unbonding after a removal — the query answers 0 and
+    CometBFT holds no entry under its key; and CometBFT holds no key that is not a live validator's -/
+theorem c18_history_removals_partial (g : Genesis) (hw : g.wf = true) (bs : List Block) (hq : QuietHistory2 g bs) :
+    ∃ first steps, run genEnv g bs = some (first, steps, RunEnd.done) ∧
+      ∀ st ∈ first :: steps,
+        (∀ v ∈ st.app.vals,
+          (Active v ∧ st.app.queryPower (some v.op) = some ((powerOf v.tokens : Nat) : Int) ∧
+            alookup v.key st.comet = some ((powerOf v.tokens : Nat) : Int)) ∨
+          (Unb v ∧ st.app.queryPower (some v.op) = some 0 ∧ alookup v.key st.comet = none)) ∧
+        (∀ k p, alookup k st.comet = some p → ∃ v ∈ st.app.vals, v.key = k ∧ Active v) := by
+  obtain ⟨first, steps, h1, _, _, hg, h5⟩ := quiet_history2 g hw bs hq
+  refine ⟨first, steps, h1, ?_⟩
+  intro st hst
+  rcases List.mem_cons.mp hst with e | e
+  · rw [e]; exact G2_views _ _ hg
+  · exact G2_views _ _ (h5 st e).2
 
 end PoaVerif.Props.C18
